@@ -72,6 +72,29 @@ class Tr2(Tr):
             parts = [self.truthy(v) for v in e.values]
             op = ' && ' if isinstance(e.op, ast.And) else ' || '
             return '(' + op.join(parts) + ')', 'bool'
+        if isinstance(e, ast.Call) and isinstance(e.func, ast.Name) and e.func.id == 'isinstance' and len(e.args) == 2 \
+                and isinstance(e.args[1], ast.Name) and e.args[1].id == 'int':
+            # the modelled domain: a declared number is a Python int, an optional number is an int or None
+            t, ty = self.expr(e.args[0])
+            if ty == 'num': return 'true', 'bool'
+            if ty == 'onum': return f'{t}.isSome', 'bool'
+            raise Untranslatable('isinstance(_, int) of ' + str(ty))
+        if isinstance(e, ast.IfExp):
+            c = self.truthy(e.test)
+            a, at = self.expr(e.body); b, bt = self.expr(e.orelse)
+            opt = {'num': 'onum', 'bool': 'obool', 'onum': 'onum', 'obool': 'obool'}
+            lean_ty = {'onum': 'Option Int', 'obool': 'Option Bool'}
+
+            def lift(t, ty, to):
+                if ty == to: return t
+                if ty == 'none': return f'(none : {lean_ty[to]})'
+                return f'(some {t} : {lean_ty[to]})'
+            if at == bt and at != 'none':
+                return f'(if {c} then {a} else {b})', at
+            to = opt.get(at if at != 'none' else bt)
+            if to and opt.get(bt if bt != 'none' else at) == to:
+                return f'(if {c} then {lift(a, at, to)} else {lift(b, bt, to)})', to
+            raise Untranslatable('conditional expression of types ' + str((at, bt)))
         if isinstance(e, ast.List) and not e.elts:
             return '[]', 'list'
         if isinstance(e, ast.Tuple):
@@ -270,6 +293,10 @@ class FnTr:
                 b = self.block(list(s.orelse) + rest, env, ind2 + '  ')
                 return f'{ind2}if {c} then\n{a}\n{ind2}else\n{b}'
             return self.unwrapping([s.test], env, ind, k, passthrough='truth')
+        if isinstance(s, ast.Assign) and len(s.targets) > 1 and not any(isinstance(t, ast.Tuple) for t in s.targets):
+            # a = b = e  ≡  tmp = e; a = tmp; b = tmp   (e is evaluated once; our expressions have no effects)
+            split = [ast.Assign(targets=[t], value=s.value) for t in s.targets]
+            return self.block(split + rest, env, ind)
         if isinstance(s, ast.Assign) and len(s.targets) == 1:
             tgt = s.targets[0]
             if isinstance(tgt, ast.Tuple):
